@@ -37,8 +37,6 @@ def spec_lit(spec):
 
 def gen_cases(tier, rng):
     """yields (coq op literal, python callable on array, input array builder key, descr)"""
-    import tensorly as tl
-    from tensorly import base
     if tier == "quick":
         shp = list(shapes([1, 2, 3, 4], [1, 2, 3]))
     else:
@@ -47,59 +45,80 @@ def gen_cases(tier, rng):
             o = rng.randint(1, 5)
             shp.append(tuple(rng.randint(1, 6) for _ in range(o)))
     for s in shp:
-        n = len(s)
-        yield ("OVec", lambda a: tl.tensor_to_vec(a), s, ("tensor_to_vec",))
-        yield (f"OUnvec {C.nat_list(s)}", (lambda a, s=s: tl.vec_to_tensor(a.reshape(-1), s)), ("flat", s), ("vec_to_tensor", s))
-        for m in range(n + 1):  # n itself is an invalid mode -> both sides must reject
-            yield (f"OUnfold {m}%nat", (lambda a, m=m: tl.unfold(a, m)), s, ("unfold", m))
-            if m < n:
-                yield (f"OFold {m}%nat {C.nat_list(s)}", (lambda a, m=m, s=s: tl.fold(tl.unfold(a, m), m, s)), ("unfolded", s, m), ("fold", m, s))
-        # partial variants
-        for sb in range(0, n + 1):
-            for se in range(0, n + 1 - sb):
-                for m in range(0, n - sb - se + (1 if tier == "thorough" else 0)):
-                    for rav in (False, True):
-                        yield (f"OPUnfold {m}%nat {sb}%nat {se}%nat {C.boolc(rav)}",
-                               (lambda a, m=m, sb=sb, se=se, rav=rav: tl.partial_unfold(a, m, sb, se, rav)), s, ("partial_unfold", m, sb, se, rav))
-                    if m + sb + se < n:
-                        yield (f"OPFold {m}%nat {C.nat_list(s)} {sb}%nat {se}%nat",
-                               (lambda a, m=m, sb=sb, se=se, s=s: tl.partial_fold(tl.partial_unfold(a, m, sb, se, False), m, s, sb, se)),
-                               ("punfolded", s, m, sb, se), ("partial_fold", m, s, sb, se))
-                if sb + se < n:
-                    yield (f"OPVec {sb}%nat {se}%nat", (lambda a, sb=sb, se=se: tl.partial_tensor_to_vec(a, sb, se)), s, ("partial_tensor_to_vec", sb, se))
-                    yield (f"OPUnvec {C.nat_list(s)} {sb}%nat {se}%nat",
-                           (lambda a, sb=sb, se=se, s=s: tl.partial_vec_to_tensor(tl.partial_tensor_to_vec(a, sb, se), s, sb, se)),
-                           ("pvec", s, sb, se), ("partial_vec_to_tensor", s, sb, se))
-        # matricize: all ordered splits for small orders, sampled otherwise
-        modes = list(range(n))
-        splits = []
-        if n <= 3 or (tier == "thorough" and n <= 4):
-            for k in range(0, n + 1):
-                for rows in itertools.permutations(modes, k):
-                    rest = [i for i in modes if i not in rows]
-                    splits.append((list(rows), None))
-                    for cols in itertools.permutations(rest):
-                        splits.append((list(rows), list(cols)))
-        else:
-            for _ in range(6):
-                p = modes[:]; rng.shuffle(p); k = rng.randint(0, n)
-                splits.append((p[:k], p[k:])); splits.append((p[:k], None))
-        # invalid requests: repeated / missing / out-of-range modes
-        splits += [([0, 0], None), ([0], [0]), ([n], None)]
-        if n >= 2:
-            splits.append(([0], []))
-        for rows, cols in splits:
-            yield (f"OMat {C.nat_list(rows)} {opt_list(cols)}", (lambda a, rows=rows, cols=cols: base.matricize(a, rows, cols)), s, ("matricize", tuple(rows), None if cols is None else tuple(cols)))
-        # NumPy primitives as used through the backend
-        for a_ in range(n):
-            for b_ in range(n):
-                yield (f"OMove {a_}%nat {b_}%nat", (lambda a, a_=a_, b_=b_: tl.moveaxis(a, a_, b_)), s, ("moveaxis", a_, b_))
-        perms = list(itertools.permutations(modes)) if n <= 3 else [tuple(rng.sample(modes, n)) for _ in range(4)]
-        for p in perms:
-            yield (f"OTrans {C.nat_list(p)}", (lambda a, p=p: tl.transpose(a, list(p))), s, ("transpose", p))
-        tot = int(np.prod(s))
-        for spec in ([-1], [tot], [1, -1], [-1, 1], [s[0], -1], [-1, s[-1]], [2, -1], [-1, -1], [tot + 1]):
-            yield (f"OReshape {spec_lit(spec)}", (lambda a, spec=spec: tl.reshape(a, spec)), s, ("reshape", tuple(spec)))
+        yield from gen_shape(s, tier, rng, light=False)
+    # high-order stream: orders 5..11 over mode sizes {1,2} (book-keeping on long mode lists)
+    hi = []
+    for o in range(5, 12):
+        for _ in range(3 if tier == "quick" else 12):
+            s = tuple(rng.choice([1, 2, 2]) for _ in range(o))
+            if 2 <= int(np.prod(s)) <= 1024:
+                hi.append(s)
+    for s in hi:
+        yield from gen_shape(s, tier, rng, light=True)
+
+
+def gen_shape(s, tier, rng, light):
+    import tensorly as tl
+    from tensorly import base
+    n = len(s)
+    modes = list(range(n))
+    some = (lambda xs, k: xs if not light or len(xs) <= k else rng.sample(xs, k))
+    yield ("OVec", lambda a: tl.tensor_to_vec(a), s, ("tensor_to_vec",))
+    yield (f"OUnvec {C.nat_list(s)}", (lambda a, s=s: tl.vec_to_tensor(a.reshape(-1), s)), ("flat", s), ("vec_to_tensor", s))
+    for m in some(list(range(n + 1)), 3):  # n itself is an invalid mode -> both sides must reject
+        yield (f"OUnfold {m}%nat", (lambda a, m=m: tl.unfold(a, m)), s, ("unfold", m))
+        if m < n:
+            yield (f"OFold {m}%nat {C.nat_list(s)}", (lambda a, m=m, s=s: tl.fold(tl.unfold(a, m), m, s)), ("unfolded", s, m), ("fold", m, s))
+    # partial variants
+    combos = []
+    for sb in range(0, n + 1):
+        for se in range(0, n + 1 - sb):
+            combos.append((sb, se))
+    for sb, se in some(combos, 4):
+        for m in some(list(range(0, n - sb - se + (1 if tier == "thorough" else 0))), 2):
+            for rav in (False, True):
+                yield (f"OPUnfold {m}%nat {sb}%nat {se}%nat {C.boolc(rav)}",
+                       (lambda a, m=m, sb=sb, se=se, rav=rav: tl.partial_unfold(a, m, sb, se, rav)), s, ("partial_unfold", m, sb, se, rav))
+            if m + sb + se < n:
+                yield (f"OPFold {m}%nat {C.nat_list(s)} {sb}%nat {se}%nat",
+                       (lambda a, m=m, sb=sb, se=se, s=s: tl.partial_fold(tl.partial_unfold(a, m, sb, se, False), m, s, sb, se)),
+                       ("punfolded", s, m, sb, se), ("partial_fold", m, s, sb, se))
+        if sb + se < n:
+            yield (f"OPVec {sb}%nat {se}%nat", (lambda a, sb=sb, se=se: tl.partial_tensor_to_vec(a, sb, se)), s, ("partial_tensor_to_vec", sb, se))
+            yield (f"OPUnvec {C.nat_list(s)} {sb}%nat {se}%nat",
+                   (lambda a, sb=sb, se=se, s=s: tl.partial_vec_to_tensor(tl.partial_tensor_to_vec(a, sb, se), s, sb, se)),
+                   ("pvec", s, sb, se), ("partial_vec_to_tensor", s, sb, se))
+    # matricize: all ordered splits for small orders, sampled otherwise
+    splits = []
+    if not light and (n <= 3 or (tier == "thorough" and n <= 4)):
+        for k in range(0, n + 1):
+            for rows in itertools.permutations(modes, k):
+                rest = [i for i in modes if i not in rows]
+                splits.append((list(rows), None))
+                for cols in itertools.permutations(rest):
+                    splits.append((list(rows), list(cols)))
+    else:
+        for k in some(list(range(0, n + 1)), 4):     # leading blocks of modes as rows, default and explicit columns
+            splits.append((modes[:k], None)); splits.append((modes[:k], modes[k:]))
+        for _ in range(4 if light else 6):
+            p = modes[:]; rng.shuffle(p); k = rng.randint(0, n)
+            splits.append((p[:k], p[k:])); splits.append((p[:k], None))
+    # invalid requests: repeated / missing / out-of-range modes
+    splits += [([0, 0], None), ([0], [0]), ([n], None)]
+    if n >= 2:
+        splits.append(([0], []))
+    for rows, cols in splits:
+        yield (f"OMat {C.nat_list(rows)} {opt_list(cols)}", (lambda a, rows=rows, cols=cols: base.matricize(a, rows, cols)), s, ("matricize", tuple(rows), None if cols is None else tuple(cols)))
+    # NumPy primitives as used through the backend
+    pairs = [(a_, b_) for a_ in range(n) for b_ in range(n)]
+    for a_, b_ in some(pairs, 4):
+        yield (f"OMove {a_}%nat {b_}%nat", (lambda a, a_=a_, b_=b_: tl.moveaxis(a, a_, b_)), s, ("moveaxis", a_, b_))
+    perms = list(itertools.permutations(modes)) if n <= 3 else [tuple(rng.sample(modes, n)) for _ in range(2 if light else 4)]
+    for p in perms:
+        yield (f"OTrans {C.nat_list(p)}", (lambda a, p=p: tl.transpose(a, list(p))), s, ("transpose", p))
+    tot = int(np.prod(s))
+    for spec in ([-1], [tot], [1, -1], [-1, 1], [s[0], -1], [-1, s[-1]], [2, -1], [-1, -1], [tot + 1]):
+        yield (f"OReshape {spec_lit(spec)}", (lambda a, spec=spec: tl.reshape(a, spec)), s, ("reshape", tuple(spec)))
 
 
 def build_input(key, impl_cache):
@@ -286,7 +305,7 @@ def run(chk):
     chk.checker_cmds.append("coqc (vm_compute) on generated build/cases/C01/*.v: Corr.C01.failing")
     chk.cov["traces_validated_against_impl"] = n_eval
     chk.cov["exhaustive"] = True
-    chk.cov["rule"] = ("every tensor shape of order 1-4 over mode sizes {1,2,3} (thorough: order<=5, order 6 over {1,2}, +300 random shapes) x every function of tensorly/base.py "
+    chk.cov["rule"] = ("every tensor shape of order 1-4 over mode sizes {1,2,3} (thorough: order<=5, order 6 over {1,2}, +300 random shapes; plus a sampled high-order stream of orders 5-11 over mode sizes {1,2}, which is NOT exhaustive) x every function of tensorly/base.py "
                        "x every mode (+1 invalid) x every (skip_begin, skip_end, ravel) split x every ordered row/column split of matricize (order<=3; sampled above) "
                        "+ invalid requests + the NumPy primitives moveaxis/transpose/reshape; entries are the distinct integers 0..n-1 so one run decides the shape for all values; "
                        "a case is non-trivial if the tensor has more than one entry; distinct key = (function, shape, arguments)")
